@@ -177,6 +177,12 @@ func findChangedThrift(r *git.Repository) (*treeChanges, error) {
 			continue
 		}
 		if filepath.Ext(from.Name) == ".thrift" {
+			// A renamed file no longer exists under its old name in the
+			// new tree: its old path was deleted (the new path, like any
+			// added file, has no previous version to compare against).
+			if a == merkletrie.Modify && o.From.Name != o.To.Name {
+				a = merkletrie.Delete
+			}
 			changed = append(changed, &change{
 				file:   o.From.Name,
 				change: a,
